@@ -142,6 +142,7 @@ int main(int argc, char **argv)
   longmode = (int)mc_opt.param[3];
   if (Nmax > CG_MAXLINES - 1 || Lmax > 8) mc_die("bounds too large");
   cg_opt_cont = 0; cg_opt_decor = 0; cg_opt_ccomment = 0; cg_opt_blankws = 0; cg_opt_tiny = 1;
+  cg_opt_oddquote = (int)mc_opt.param[4];   /* --p4 1: values {v, "q r, "q" r} - the first sentence of the statement holds after ANY line: also after a value whose quote is still open */
   mc_split = 4;
   snprintf(path, sizeof path, "%s/f.conf", mc_work);
   if (mc_opt.case_id) return mc_replay(gen, exec, mc_opt.case_id);
